@@ -431,6 +431,11 @@ func (zp *ZoneParser) Next() (RR, bool) {
 				return zp.setParseError("garbage after $INCLUDE", l)
 			}
 
+			if zp.c.l.err {
+				// The lexer found a syntax error on this line that nobody looked at.
+				return zp.setParseError(zp.c.l.token, zp.c.l)
+			}
+
 			if zp.c.Err() != nil {
 				// The input failed inside this directive.
 				return nil, false
